@@ -123,11 +123,12 @@ func (s *Sizes) Sizeof(T types.Type) int64 {
 		}
 		offsets := s.Offsetsof(fields)
 		a := s.Alignof(T)
-		lsz := s.Sizeof(fields[n-1].Type())
-		if lsz == 0 {
-			lsz = 1
+		z := offsets[n-1] + s.Sizeof(fields[n-1].Type())
+		if offsets[n-1] > 0 && z == offsets[n-1] {
+			// gc: The last field of a non-zero-sized struct is not
+			// allowed to have size 0.
+			z++
 		}
-		z := offsets[n-1] + lsz
 		return align(z, a)
 	case *types.Interface:
 		return s.WordSize * 2
